@@ -430,3 +430,41 @@ Theorem C08_never_in_range_no_incentives : forall ops rs id l h c f, RInv rs -> 
   claimable_incentives rs' id = Some (c, f) -> c = (0, 0) /\ f = (0, 0).
 Proof. exact never_in_range_no_incentives. Qed.
 Print Assumptions C08_never_in_range_no_incentives.
+
+(* position 2 on [1000, 3000) while the tick stays near 0: an incentive on the shortest uptime, time, a swap inside the bucket, more time,
+   a collect on the other position, more time: position 2 can claim neither spread rewards nor incentives, position 1 can *)
+Definition ex_rs1 : rstate :=
+  rrun (rinit 0x64 0x71afd498d0000 0x2cd76fe086b93ce2f768a00b22a00000000000 0x2cd76fe086b93ce2f768a00b22a00000000000
+          [(0xc9f2c9cd04674edea40000000, 0xc9f2c9cd04674edea40000000); (0xc9f2c9cd04674edea40000000, 0xc9f2c9cd04674edea40000000);
+           (0xc9f2c9cd04674edea40000000, 0xc9f2c9cd04674edea40000000)] 0x6553f100)
+       [RBase (OCreate 0x0 0x3b9aca00 0x3b9aca00 0x0 0x0 (-0x186a0) 0x186a0);
+        RBase (OCreate 0x1 0x989680 0x0 0x0 0x0 0x3e8 0xbb8)].
+Definition ex_ops1 : list rop :=
+  [RIncentive 0x2 0x0 0xf4240 0xde0b6b3a7640000 0x0 0x0; RBase (OTime 0x64); RBase (OSwapIn 0x2 false 0xf4240 0x1);
+   RBase (OTime 0x32); RCollectInc 0x0 [0x1]; RBase (OTime 0x10)].
+Example C08_never_in_range_nonvacuous :
+  RInv ex_rs1 /\ length (rw_up (r_rw ex_rs1)) = NU /\ live_through ex_rs1 ex_ops1 2 1000 3000 /\ hist_outside ex_rs1 ex_ops1 1000 3000 /\
+  hist_untouchedI ex_ops1 2 = true /\ 2 < s_next_id (r_base ex_rs1) /\ zero_urec ex_rs1 2 1000 3000 /\ zero_rec ex_rs1 2 1000 3000 /\
+  length (rw_up (r_rw (rrun ex_rs1 ex_ops1))) = NU /\ in_rng 1000 3000 (cur_tick (rrun ex_rs1 ex_ops1)) = false /\
+  claimable_incentives (rrun ex_rs1 ex_ops1) 2 = Some ((0, 0), (0, 0)) /\ claimable_spread (rrun ex_rs1 ex_ops1) 2 = Some (0, 0) /\
+  (exists c f, claimable_incentives (rrun ex_rs1 ex_ops1) 1 = Some (c, f) /\ 0 < fst c + fst f) /\
+  (exists c, claimable_spread (rrun ex_rs1 ex_ops1) 1 = Some c /\ 0 < snd c).
+Proof.
+  split; [apply rinv_run; apply rinv_init; lia|]. split; [vm_compute; reflexivity|].
+  split; [unfold live_through, ex_ops1; repeat split; (eexists; split; [vm_compute; reflexivity|split; reflexivity])|].
+  split.
+  { unfold ex_ops1. cbn [hist_outside]. split; [vm_compute; reflexivity|]. split; [vm_compute; reflexivity|].
+    split; [vm_compute; intros c' HC; repeat (destruct HC as [HC|HC]; [subst c'; reflexivity|]); destruct HC|].
+    split; [vm_compute; reflexivity|]. split; [vm_compute; reflexivity|]. split; [vm_compute; reflexivity|exact Logic.I]. }
+  split; [reflexivity|]. split; [vm_compute; reflexivity|].
+  split.
+  { intros u r Hu R. assert (H6 : NU = 6%nat) by reflexivity. rewrite H6 in Hu. clear H6.
+    do 6 (destruct u as [|u]; [vm_compute in R; inversion R; subst r; split; [reflexivity|intros [|]; vm_compute; reflexivity]|]).
+    exfalso. do 6 (apply <- Nat.succ_lt_mono in Hu). inversion Hu. }
+  split.
+  { eexists. eexists. split; [eexists; split; [vm_compute; reflexivity|split; [reflexivity|split; reflexivity]]|].
+    split; [vm_compute; reflexivity|]. split; [vm_compute; reflexivity|]. split; [reflexivity|]. split; [reflexivity|]. intros [|]; vm_compute; reflexivity. }
+  split; [vm_compute; reflexivity|]. split; [vm_compute; reflexivity|]. split; [vm_compute; reflexivity|]. split; [vm_compute; reflexivity|].
+  split; [eexists; eexists; split; [vm_compute; reflexivity|vm_compute; reflexivity]|].
+  eexists; split; [vm_compute; reflexivity|vm_compute; reflexivity].
+Qed.
